@@ -45,19 +45,20 @@ type evLog struct {
 }
 
 type ioScenario struct {
-	Op     string     `json:"op"` // readatmost | readall | copydata | copyn | limitedread | writestring
-	Max    int64      `json:"max,omitempty"`
-	Cap    int64      `json:"cap,omitempty"`
-	N      int64      `json:"n,omitempty"`
-	SrcLen int        `json:"src_len"`
-	Salt   int        `json:"salt,omitempty"`
-	Reads  []rdScript `json:"reads,omitempty"`
-	Writes []wrScript `json:"writes,omitempty"`
-	RF     bool       `json:"reader_from,omitempty"`
-	WT     bool       `json:"writer_to,omitempty"`
-	Pre    string     `json:"pre,omitempty"` // context done before the call: "" (no) or the way it ended (ctxflavours.go; cancelled = cancel)
-	Mid    string     `json:"mid,omitempty"` // the way the context ends when a script says so ("" = cancel)
-	Apply  bool       `json:"apply_limits,omitempty"`
+	Op       string     `json:"op"` // readatmost | readall | copydata | copyn | limitedread | writestring
+	Max      int64      `json:"max,omitempty"`
+	Cap      int64      `json:"cap,omitempty"`
+	N        int64      `json:"n,omitempty"`
+	SrcLen   int        `json:"src_len"`
+	Salt     int        `json:"salt,omitempty"`
+	Reads    []rdScript `json:"reads,omitempty"`
+	Writes   []wrScript `json:"writes,omitempty"`
+	RF       bool       `json:"reader_from,omitempty"`
+	WT       bool       `json:"writer_to,omitempty"`
+	Pre      string     `json:"pre,omitempty"` // context done before the call: "" (no) or the way it ended (ctxflavours.go; cancelled = cancel)
+	Mid      string     `json:"mid,omitempty"` // the way the context ends when a script says so ("" = cancel)
+	Apply    bool       `json:"apply_limits,omitempty"`
+	StatSize int64      `json:"stat_size,omitempty"` // limitedread: the size Stat reports (a huge sparse file); 0 = the real length
 }
 
 var errInjectedRead = errors.New("harness: injected read failure")
@@ -194,6 +195,34 @@ type instrFile struct {
 
 func (f *instrFile) Read(p []byte) (int, error) { return f.src.Read(p) }
 
+// size-reporting wrapper: a (sparse) file of the given size whose first bytes are the source
+type sizedInfo struct {
+	os.FileInfo
+	size int64
+}
+
+func (i sizedInfo) Size() int64 { return i.size }
+
+type sizedFile struct {
+	*instrFile
+	size int64
+}
+
+func (f *sizedFile) Stat() (os.FileInfo, error) {
+	fi, err := f.instrFile.File.Stat()
+	if err != nil {
+		return fi, err
+	}
+	return sizedInfo{fi, f.size}, nil
+}
+
+func (sc ioScenario) fileSize() int64 {
+	if sc.StatSize > 0 {
+		return sc.StatSize
+	}
+	return int64(sc.SrcLen)
+}
+
 type ioObs struct {
 	Kind   string
 	Err    string
@@ -271,7 +300,11 @@ func runIO(sc ioScenario) (o ioObs, data []byte) {
 				lim = filesystem.NewLimits(sc.Max, 1<<40, 1<<20, 64, false)
 			}
 			var c []byte
-			c, err = vfs.(*filesystem.VFS).ReadFileContent(ctx, &instrFile{File: f, src: src}, lim)
+			var file filesystem.File = &instrFile{File: f, src: src}
+			if sc.StatSize > 0 {
+				file = &sizedFile{instrFile: &instrFile{File: f, src: src}, size: sc.StatSize}
+			}
+			c, err = vfs.(*filesystem.VFS).ReadFileContent(ctx, file, lim)
 			o.Out, o.OutNil, o.Count = c, c == nil, int64(len(c))
 		}
 	}()
@@ -388,9 +421,9 @@ func checkIO(r *h.Run, sc ioScenario, o ioObs, data []byte) {
 	if op == "copyn" && o.Kind == "nil" && sc.N >= 0 && (o.Count != sc.N || int64(len(o.Out)) != sc.N) {
 		r.Fail("copyn-not-exact", fmt.Sprintf("CopyN(%d) returned no error but count %d, destination holds %d bytes", sc.N, o.Count, len(o.Out)), sc)
 	}
-	if op == "limitedread" && sc.Apply && int64(sc.SrcLen) > sc.Max {
+	if op == "limitedread" && sc.Apply && sc.fileSize() > sc.Max {
 		if o.Kind != "toolarge" {
-			r.Fail("large-file-not-refused", fmt.Sprintf("file of %d bytes read with maximum %d: kind %s, %d bytes returned", sc.SrcLen, sc.Max, o.Kind, len(o.Out)), sc)
+			r.Fail("large-file-not-refused", fmt.Sprintf("file of %d bytes read with maximum %d: kind %s, %d bytes returned", sc.fileSize(), sc.Max, o.Kind, len(o.Out)), sc)
 		}
 		return
 	}
@@ -484,7 +517,7 @@ func coqCase(sc ioScenario, o ioObs, data []byte) string {
 	case "copyn":
 		op = "(OpCopyN " + h.Z(sc.N) + ")"
 	case "limitedread":
-		op = fmt.Sprintf("(OpLimitedRead %s %s %d)", h.Bool(sc.Apply), h.Z(sc.Max), sc.SrcLen)
+		op = fmt.Sprintf("(OpLimitedRead %s %s %d)", h.Bool(sc.Apply), h.Z(sc.Max), sc.fileSize())
 	default:
 		return ""
 	}
@@ -575,6 +608,23 @@ func ioCorpus(r *h.Run) {
 	doIO(r, ioScenario{Op: "readatmost", Max: math.MaxInt64, Cap: -1, SrcLen: 10}, true)
 	doIO(r, ioScenario{Op: "readatmost", Max: 1 << 50, Cap: -1, SrcLen: 10}, true)
 	doIO(r, ioScenario{Op: "readatmost", Max: math.MaxInt64, Cap: -1, SrcLen: 0}, true)
+}
+
+// limited reads of huge (sparse) files: sizes at and around the thresholds the code mentions, small and large limits
+func ioHugeFiles(r *h.Run) {
+	for _, size := range []int64{1e9 - 1, 1e9, 1e9 + 1, 1<<31 - 1, 1 << 31, 1<<31 + 1, 1<<32 - 1, 1 << 32, 1<<32 + 1, 1 << 40} {
+		for _, m := range []int64{0, 1, 1024, 4096, size - 1} {
+			doIO(r, ioScenario{Op: "limitedread", Apply: true, Max: m, SrcLen: 3000, Salt: int(size % 97), StatSize: size}, true)
+			for _, pre := range []string{"cancelled", "deadline"} {
+				doIO(r, ioScenario{Op: "limitedread", Apply: true, Max: m, SrcLen: 3000, StatSize: size, Pre: pre}, false)
+			}
+		}
+		if size >= 1e9 { // (below 1e9 the code sizes its buffer after the file: not exercised with an allowed read)
+			doIO(r, ioScenario{Op: "limitedread", Apply: true, Max: size, SrcLen: 300, Salt: 7, StatSize: size}, true)
+			doIO(r, ioScenario{Op: "limitedread", Apply: true, Max: size + 1, SrcLen: 300, Salt: 7, StatSize: size}, true)
+			doIO(r, ioScenario{Op: "limitedread", Apply: false, SrcLen: 300, Salt: 7, StatSize: size}, true)
+		}
+	}
 }
 
 func ioDeterministic(r *h.Run) {
@@ -732,6 +782,24 @@ func ioFiles(r *h.Run) {
 		return
 	}
 	defer os.RemoveAll(tmp)
+	// real sparse files on the OS back end (os.Truncate): refused without being read
+	osfs := filesystem.NewStandardFileSystem()
+	for _, size := range []int64{1e9 - 1, 1e9, 1e9 + 1, 1 << 31, 1<<32 + 1} {
+		p := fmt.Sprintf("%s/sparse%d.bin", tmp, size)
+		if err := os.WriteFile(p, pattern(2000, 3), 0o644); err != nil || os.Truncate(p, size) != nil {
+			r.Note("cannot create a sparse file")
+			continue
+		}
+		for _, m := range []int64{0, 1024, size - 1} {
+			r.Eval()
+			r.Count("io-file-limited-read:os-sparse")
+			c, err := osfs.ReadFileWithContextAndLimits(context.Background(), p, filesystem.NewLimits(m, 1<<40, 1<<20, 64, false))
+			if kindOf(err) != "toolarge" {
+				r.Fail("large-file-not-refused", fmt.Sprintf("os back end: sparse file of %d bytes read with maximum %d: kind %s, %d bytes", size, m, kindOf(err), len(c)), map[string]any{"backend": "os", "size": size, "max": m})
+			}
+		}
+		_ = os.Remove(p)
+	}
 	backs := map[string]filesystem.FS{"os": filesystem.NewStandardFileSystem(), "mem": filesystem.NewInMemoryFileSystem()}
 	for name, fs := range backs {
 		for _, L := range []int{1, 100, 512, 4096, 40000} {
